@@ -506,6 +506,19 @@ impl Cli {
                     self.mark_ended();
                     self.sh.ctl.fail_conns.lock().unwrap().insert(self.ordinal);
                 }
+                CStep::Dribble { total_us, gap_us } => {
+                    self.mark_ended();
+                    sim.probe("client_keeps_sending_after_the_signal");
+                    let until = sim.now_ns() + total_us * 1000;
+                    // an endless bulk string: never a complete request, never malformed
+                    self.queue_raw(b"*3\r\n$3\r\nSET\r\n$1\r\nk\r\n$100000000\r\n");
+                    while sim.now_ns() < until && !self.eof && !self.reset {
+                        self.queue_raw(b"xxxxxxxx");
+                        self.deadline = Some(sim.now_ns() + gap_us * 1000);
+                        self.pump(&|c: &Cli| c.eof || c.reset);
+                        self.deadline = None;
+                    }
+                }
                 CStep::WaitShutdown => {
                     // fire it: the client that reaches this step pulls the trigger, so the
                     // signal lands at a scripted point of this connection's life
